@@ -93,6 +93,28 @@ def evaluate(case, ctr, rng):
     return viols, nontrivial
 
 
+def classify_c03(v, case, reeval):
+    m = classify.fragment(v, case, reeval)
+    if m is None and v.get("detector") == "missing-fee-check" and v["kind"] == "reported-although-guarded":
+        # is the report explained by a Fee domain that keeps a single upper bound?  Re-run the oracle with the
+        # 'some larger fee' semantics: if a walk exists there, the disagreement is exactly the lost lower bounds.
+        P = exact.oracle(case)
+        consts = set()
+        for ins in case.prog:
+            if ins[0] in ("int", "pushint") and isinstance(ins[1], int):
+                consts.add(int(ins[1]))
+            if ins[0] == "intcblock":
+                consts.update(int(x) for x in ins[1:])
+        allowed = set()
+        key = walks.Key("Fee", upward=True)
+        for f in inputs.uint_reps(consts, extra=(272000, 272001, U64), limit=40):
+            if f > 272000:
+                allowed |= P.admitted(key, f, "valid")
+        if P.exists_walk_within(allowed, None):
+            return "fee-domain-keeps-no-lower-bound"
+    return m
+
+
 _P = {"direct_only": True, "gtxn": 0.0, "recursion": False}
 _c = fragcheck.FragCheck(
     PROP, evaluate,
@@ -103,6 +125,6 @@ _c = fragcheck.FragCheck(
     rule="direct-check programs (operand order x six operators x negation x &&/|| nesting x consumer assert/bz/bnz/return x "
          "location: entry, branch arm, loop body, shared / nested subroutine, return point) x nine detectors; non-trivial = distinct "
          "(program, detector) where the program has an accepting walk and the oracle says every accepting walk is guarded",
-    classify=classify.fragment, want_execs=False,
+    classify=classify_c03, want_execs=False,
 )
 _c.export(globals())
